@@ -45,6 +45,7 @@ class SimFile:
         self.fired = None
         self.delivered = []  # the lines actually handed out
         self._eof_forced = False
+        self.rewound = False
         self.mode = "r"
 
     # ------------------------------------------------------------- reading
@@ -100,7 +101,31 @@ class SimFile:
         return False
 
     def seekable(self):
-        return False
+        return True
+
+    def tell(self):
+        if self.closed:
+            raise ValueError("I/O operation on closed file.")
+        return sum(len(ln) for ln in self._lines[: self._pos])
+
+    def seek(self, offset, whence=0):
+        """Line-granular: only positions previously returned by tell() (and 0) are meaningful."""
+        if self.closed:
+            raise ValueError("I/O operation on closed file.")
+        if whence == 2:
+            self._pos = len(self._lines)
+            return self.tell()
+        if whence == 1:
+            offset += self.tell()
+        total = 0
+        self._pos = len(self._lines)
+        for i, ln in enumerate(self._lines):
+            if total >= offset:
+                self._pos = i
+                break
+            total += len(ln)
+        self.rewound = True
+        return self.tell()
 
     def fileno(self):
         raise io.UnsupportedOperation("fileno")
